@@ -747,6 +747,22 @@ def _builtin(s, ctx, func, g, tc, A, caller, ln, last):
     # ------------------------------------------------------------ DashMap (one shard lock = worst case)
     if E('DashMap::new') or E('DashMap::with_capacity'):
         m = MapM(kind='DashMap'); m.shard = LockM(None, 'shard', 'RwLock'); return m
+    mt = re.search(r'DashMap::(try_get|try_get_mut)$', g)
+    if mt:
+        # non-blocking lookup: TryResult::{Present(guard) = 0, Absent = 1, Locked = 2}; Locked when another holder has the shard
+        m = deref_all(A[0]); mode = 'r' if mt.group(1) == 'try_get' else 'w'
+        if not isinstance(m, MapM): raise Unsupported('DashMap op on ' + type(m).__name__)
+        if m.shard is None: m.shard = LockM(None, 'shard', 'RwLock')
+        lk = m.shard; kind = 1 if mode == 'r' else 2
+        yield from s.sched_point(ctx, 'try_lock')
+        if (mode == 'w' and lk.state != 0) or (mode == 'r' and lk.state < 0):
+            ctx.events.append(('lock', ctx.tid, lk.name, 'try-failed', kind, 1)); return Agg('TryResult', 2, [])
+        lk.state = -1 if mode == 'w' else lk.state + 1; lk.owners.append(ctx.tid)
+        ctx.events.append(('lock', ctx.tid, lk.name, mode, kind, 1)); gd = GuardM(lk, mode, ctx.tid)
+        k = _key(A[1]); i = _find(ctx, m, k)
+        if i == len(m.items): s.drop_val(ctx, gd); return Agg('TryResult', 1, [])
+        yield from s.sched_point(ctx, 'guard-held')                 # the caller now works under the guard: others may run meanwhile
+        return Agg('TryResult', 0, [Agg('DashRef', 0, [gd, Ref(SlotCell(m.items[i], 1, 'dashval')), Ref(SlotCell(m.items[i], 0))])])
     md = re.search(r'DashMap::(get|get_mut|contains_key|remove|insert|len|clear|iter|iter_mut|is_empty|retain|entry|remove_if|alter)$', g)
     if md:
         m = deref_all(A[0]); op = md.group(1)
@@ -789,6 +805,7 @@ def _builtin(s, ctx, func, g, tc, A, caller, ln, last):
             if not found: return none()
             e = m.items.pop(i); return some(tup(e[0], e[1]))
         if not found: s.drop_val(ctx, gd); return none()
+        if getattr(s, 'guard_points', False): yield from s.sched_point(ctx, 'guard-held')      # others may run while the entry guard is held
         return some(Agg('DashRef', 0, [gd, Ref(SlotCell(m.items[i], 1, 'dashval')), Ref(SlotCell(m.items[i], 0))]))
     if tc and tc[0] in ('Ref', 'RefMut') and tc[2] in ('deref', 'deref_mut'):
         d = deref_all(A[0])
